@@ -6,7 +6,8 @@
    What is not expressible here: the Go memory model and scheduler; that the code takes the locks where the
    model says is checked dynamically (lock probes at every shared access, race detector, answer comparison). *)
 From Coq Require Import List Arith Bool.
-From UF Require Import Model.Conc Model.ConcQuery Proofs.C14Proofs Proofs.ConcQueryProofs.
+From Coq Require Import NArith ZArith.
+From UF Require Import Base.Bytes Model.NetRule Model.Request Model.Match Model.Engines Model.Conc Model.ConcQuery Proofs.C14Proofs Proofs.ConcQueryProofs Proofs.ConcTie.
 Import ListNotations.
 
 Section Statements.
@@ -190,3 +191,20 @@ Proof. exact all_table_queries_finish. Qed.
 Print Assumptions C14_table_queries_finish.
 (* non-vacuity: qx_runs (ConcQueryProofs.v) — three goroutines, overlapping buckets with repeated indexes, an irregular
    schedule of 440 steps: all complete with the reference answers, by computation *)
+
+(* ... and that reference answer IS the shortcut-table lookup of the engine model (Model/Engines.v match_shortcuts, whose
+   meaning C01 gives): any number of goroutines look up the shortcut table of one engine, each for its own request, on
+   a cold cache; [dec] is the storage-index decoding (injective: C11_pack_injective) *)
+Theorem C14_concurrent_match_shortcuts : forall hash psl retr cval cof dec, (forall a b, dec a = dec b -> a = b) ->
+  forall content, (forall idx, content (fst (dec idx)) (snd (dec idx)) = retr idx) ->
+  forall e idx_of obj0, (forall i, idx_of (obj0 i) = i) -> forall alloc, (forall t i, idx_of (alloc t i) = i) ->
+  forall (qs : tid -> request) sched t a,
+  let matches := fun t => qmatches psl cval (qs t) in
+  let bucket_of := fun t => map dec (walk hash e (qs t)) in
+  qresult net_rule cval (tq net_rule cval alloc matches bucket_of t)
+    (hist (th (run elk elk_eq_dec (ecomp net_rule cval) (eout net_rule cval)
+                 (init elk (ecomp net_rule cval) (eout net_rule cval) (cold net_rule cval)
+                       (tq_progs net_rule cval content cof idx_of alloc matches bucket_of)) sched) t)) = Some a ->
+  a = map snd (match_shortcuts hash psl retr e (qs t)).
+Proof. exact concurrent_match_shortcuts. Qed.
+Print Assumptions C14_concurrent_match_shortcuts.
